@@ -154,7 +154,7 @@ Fixpoint spec_run (strict : bool) (lim : Z) (cl : list call) (evs : list ev) (im
   match evs, impl with
   | [], [] => true
   | e :: er, o :: ir =>
-      let ncache' := match e with ENew | ERelBucketsNew => S ncache | _ => ncache end in
+      let ncache' := match e with ENew | ERelBucketsNew | ERotateNew | ECleanupNew => S ncache | _ => ncache end in
       let ncall' := match e with ECall _ _ _ => S ncall | EFill _ _ _ n _ _ => (ncall + n)%nat | _ => ncall end in
       let rel' := match e with ERelease c => c :: rel | _ => rel end in
       (* the loaders of a fill all run (fresh keys; the harness checks it) *)
@@ -169,7 +169,7 @@ Fixpoint spec_run (strict : bool) (lim : Z) (cl : list call) (evs : list ev) (im
       forallb (fun c => Nat.ltb c ncache') (o_bk o) &&
       (* a cleaning pass brings the accounted (= live) size under the limit *)
       match e, o_ret o with
-      | ECleanup, 1 :: _ => (o_acct o <=? lim) && (negb strict || (o_live o <=? lim))
+      | ECleanup, 1 :: _ | ECleanupNew, 1 :: _ => (o_acct o <=? lim) && (negb strict || (o_live o <=? lim))
       | _, _ => true
       end &&
       spec_run strict lim cl er ir ncache' ncall' rel' seen'
@@ -178,8 +178,11 @@ Fixpoint spec_run (strict : bool) (lim : Z) (cl : list call) (evs : list ev) (im
 
 Definition case_spec_ok (c : case) : bool :=
   match c with
-  | CRun strict lim mg es evs impl _ _ =>
+  | CRun strict lim mg es evs impl gsizes snaps =>
       (mg =? lim / 20) && (0 <? es) &&
+      (* at the end (nothing in flight): the current generation of every cache that was not released is the
+         cleaner's last generation *)
+      forallb (fun s => s_rel s || (s_cur s =? Z.of_nat (length gsizes) - 1)) snaps &&
       spec_run strict lim (calls_of evs) evs impl 0%nat 0%nat [] []
   end.
 
